@@ -31,6 +31,8 @@ structure Leaf where
   txtPad : String
   padNone : Bool
   neverPad : Bool
+  /-- the node is new to the list, or its value changed since the list was last rebuilt (`ListNode._fresh_ids`) -/
+  fresh : Bool := true
   deriving Repr
 
 structure Sc where
@@ -65,6 +67,12 @@ structure Sc where
   mulWritten : Option Rat
   /-- multiply: the factor it was written with (`_num_node._og_value`) -/
   mulOg : Option Rat := none
+  /-- `_bound_as_product`: when it was bound it held a single node (a multiply written without a base of its own) -/
+  boundAsProduct : Bool := false
+  /-- `_bound_run`: the ids of the nodes it stood for when it was bound (it may always take those again) -/
+  runIds : List Nat := []
+  /-- `_own_start`: it was read with a first value of its own and is written with it -/
+  ownStart : Bool := false
   deriving Repr
 
 def relTol : Rat := mkRat Gen.relTolNum Gen.relTolDen
@@ -78,6 +86,13 @@ def isclose (a b : Rat) : Bool :=
   else
     let diff := rabs (b - a)
     decide (diff ≤ rabs (relTol * b)) || decide (diff ≤ rabs (relTol * a)) || decide (diff ≤ absTol)
+
+/-- `math.isclose(a, b, rel_tol, abs_tol=rel_tol * scale)`: a linearly interpolated value is compared on the scale of
+    its interpolation (`_interpolation_abs_tol`) -/
+def iscloseScale (a b scale : Rat) : Bool :=
+  isclose a b || decide (rabs (b - a) ≤ relTol * scale)
+
+def scaleOf (a b : Rat) : Rat := if rabs a < rabs b then rabs b else rabs a
 
 /-- closeness of `y` to the positive number whose `n`-th power is `t` (stands for `isclose(10**(..), y)`) -/
 def powClose (y : Rat) (n : Nat) (t : Rat) : Bool :=
@@ -111,11 +126,13 @@ def isValidInterpolateEdge (s : Sc) (node : Leaf) (fwd : Bool) : Bool :=
           powClose y n (ev ^ n * ratio)
     else
       match (if fwd then s.nodes.getLast? else s.nodes.head?) with
-      | none => isclose (if fwd then s.sBegin else s.sEnd) y || (fwd && isclose (s.sBegin + s.sSpacing) y)
+      | none =>
+        iscloseScale (if fwd then s.sBegin else s.sEnd) y (scaleOf s.sBegin s.sEnd) ||
+          (fwd && iscloseScale (s.sBegin + s.sSpacing) y (scaleOf s.sBegin s.sEnd))
       | some e =>
         match e.val with
         | none => false
-        | some ev => isclose (if fwd then ev + s.sSpacing else ev - s.sSpacing) y
+        | some ev => iscloseScale (if fwd then ev + s.sSpacing else ev - s.sSpacing) y (scaleOf s.sBegin s.sEnd)
 
 /-- `ShortcutNode._is_product`: `p` is `b` times the factor the multiply was written with -/
 def isProduct (s : Sc) (b p : Rat) : Bool :=
@@ -137,7 +154,7 @@ def canConsumeNode (s : Sc) (node : Leaf) (fwd : Bool) (lastEdgeShortcut : Bool)
   | .mul =>
     if node.val.isNone then (false, s)
     else match s.nodes with
-      | [] => (true, { s with full := lastEdgeShortcut })
+      | [] => (true, { s with full := s.boundAsProduct })
       | [bn] =>
         -- it only grows at its end, and only by base times the factor it was written with (`_is_product`)
         (!s.full && fwd && (match bn.val, node.val with
@@ -145,11 +162,18 @@ def canConsumeNode (s : Sc) (node : Leaf) (fwd : Bool) (lastEdgeShortcut : Bool)
           | _, _ => false), s)
       | _ => (false, s)
 
+/-- `ListNode._may_take`: one of the nodes the shortcut stood for so far, or a fresh node -/
+def mayTake (s : Sc) (v : Leaf) : Bool := s.runIds.contains v.id || v.fresh
+
 /-- `ShortcutNode.consume_edge_node` -/
 def consumeEdgeNode (s : Sc) (node : Leaf) (fwd : Bool) (lastEdgeShortcut : Bool) : Bool × Sc :=
   let (ok, s') := canConsumeNode s node fwd lastEdgeShortcut
   if ok then (true, { s' with nodes := if fwd then s'.nodes ++ [node] else node :: s'.nodes })
   else (false, s')
+
+/-- `self._may_take(shortcut, value) and shortcut.consume_edge_node(value, ...)` (growth of a shortcut) -/
+def guardedConsume (s : Sc) (node : Leaf) (fwd : Bool) (lastEdgeShortcut : Bool) : Bool × Sc :=
+  if mayTake s node then consumeEdgeNode s node fwd lastEdgeShortcut else (false, s)
 
 /-! ## Formatting -/
 
@@ -273,9 +297,8 @@ def formatMultiply (s : Sc) (carried : Option Rat) : Option Fmt :=
   | some (base, first, product) =>
     match base, product, s.mulWritten with
     | some b, some p, some w =>
-      if b == 0 then none
       -- only the multiply that was written is written again (`_is_product`)
-      else if !isProduct s b p then none
+      if !isProduct s b p then none
       else
         let written := b * w
         if isclose written p then
@@ -287,12 +310,12 @@ def formatMultiply (s : Sc) (carried : Option Rat) : Option Fmt :=
     | _, _, _ => none
 
 /-- the loop of `_is_interpolation` (`for i, node in enumerate(nodes)`, from index `i` on), linear -/
-def linOk (b spacing : Rat) : Nat → List Leaf → Bool
+def linOk (b spacing scale : Rat) : Nat → List Leaf → Bool
   | _, [] => true
   | i, l :: ls =>
     (match l.val with
-      | some y => isclose (b + spacing * ((i + 1 : Nat) : Rat)) y
-      | none => false) && linOk b spacing (i + 1) ls
+      | some y => iscloseScale (b + spacing * ((i + 1 : Nat) : Rat)) y scale
+      | none => false) && linOk b spacing scale (i + 1) ls
 
 /-- the loop of `_is_interpolation`, logarithmic -/
 def logOk (b e : Rat) (number : Nat) : Nat → List Leaf → Bool
@@ -312,7 +335,7 @@ def isInterpolation (s : Sc) (begin_ : Option Rat) (nodes : List Leaf) : Bool :=
       if nodes.any (fun l => l.val.isNone) then false
       else if s.kind == Kind.log then
         if b ≤ 0 || e ≤ 0 then false else logOk b e nodes.length 0 nodes
-      else linOk b ((e - b) / (nodes.length : Rat)) 0 nodes
+      else linOk b ((e - b) / (nodes.length : Rat)) (scaleOf b e) 0 nodes
   | _, _ => false
 
 /-- the text `_format_interpolate` returns once it has decided on start, count and closing node -/
@@ -341,7 +364,9 @@ def formatInterpolate (s : Sc) (carried : Option Rat) : Option Fmt :=
     | [] => none
 
 /-- `ShortcutNode.format(leading_node)`; `carried` = `leading_node._written_tail` -/
-def format (s : Sc) (carried : Option Rat) : Fmt :=
+def format (s : Sc) (carried0 : Option Rat) : Fmt :=
+  -- a shortcut read with a first value of its own is written with it (`_own_start`)
+  let carried : Option Rat := if s.ownStart then none else carried0
   let r : Option Fmt := match s.kind with
     | .jmp => some (formatJump s)
     | .rep => formatRepeat s carried
